@@ -4,6 +4,7 @@ import (
 	"context"
 	"strconv"
 	"strings"
+	"sync"
 	"time"
 
 	"go.uber.org/cff"
@@ -128,3 +129,130 @@ type schedRec struct{}
 // scheduler level (C19); here the records are dropped.
 func (l *Leaf) SchedulerInit(*cff.SchedulerInfo) cff.SchedulerEmitter { return schedRec{} }
 func (schedRec) EmitScheduler(cff.SchedulerState)                     {}
+
+// ---------------------------------------------------------------------------
+// Emitters shared between executions.  A program may pass the same emitter
+// value (here: a nested EmitterStack of three leaves, built once per process)
+// to every execution, next to an emitter of its own.  A shared leaf finds
+// the execution an event belongs to through the context the generated code
+// hands to every callback.
+
+type sharedLeaf struct{ n int }
+
+var (
+	teamOnce sync.Once
+	team     cff.Emitter
+)
+
+// Team returns the process-wide stack EmitterStack(EmitterStack(s1, s2), s3).
+func Team() cff.Emitter {
+	teamOnce.Do(func() {
+		team = cff.EmitterStack(cff.EmitterStack(&sharedLeaf{1}, &sharedLeaf{2}), &sharedLeaf{3})
+	})
+	return team
+}
+
+func (s *sharedLeaf) leaf(ctx context.Context) *Leaf {
+	if x := From(ctx); x != nil {
+		return &Leaf{x: x, n: s.n}
+	}
+	return nil
+}
+
+type sharedFlow struct {
+	s    *sharedLeaf
+	name string
+}
+
+func (s *sharedLeaf) FlowInit(info *cff.FlowInfo) cff.FlowEmitter { return &sharedFlow{s, info.Name} }
+func (f *sharedFlow) FlowSuccess(ctx context.Context) {
+	if l := f.s.leaf(ctx); l != nil {
+		(&flowRec{l, f.name}).FlowSuccess(ctx)
+	}
+}
+func (f *sharedFlow) FlowError(ctx context.Context, err error) {
+	if l := f.s.leaf(ctx); l != nil {
+		(&flowRec{l, f.name}).FlowError(ctx, err)
+	}
+}
+func (f *sharedFlow) FlowDone(ctx context.Context, d time.Duration) {
+	if l := f.s.leaf(ctx); l != nil {
+		(&flowRec{l, f.name}).FlowDone(ctx, d)
+	}
+}
+
+type sharedPar struct {
+	s    *sharedLeaf
+	name string
+}
+
+func (s *sharedLeaf) ParallelInit(info *cff.ParallelInfo) cff.ParallelEmitter {
+	return &sharedPar{s, info.Name}
+}
+func (f *sharedPar) ParallelSuccess(ctx context.Context) {
+	if l := f.s.leaf(ctx); l != nil {
+		(&parRec{l, f.name}).ParallelSuccess(ctx)
+	}
+}
+func (f *sharedPar) ParallelError(ctx context.Context, err error) {
+	if l := f.s.leaf(ctx); l != nil {
+		(&parRec{l, f.name}).ParallelError(ctx, err)
+	}
+}
+func (f *sharedPar) ParallelDone(ctx context.Context, d time.Duration) {
+	if l := f.s.leaf(ctx); l != nil {
+		(&parRec{l, f.name}).ParallelDone(ctx, d)
+	}
+}
+
+type sharedTask struct {
+	s    *sharedLeaf
+	name string
+}
+
+func (s *sharedLeaf) TaskInit(info *cff.TaskInfo, _ *cff.DirectiveInfo) cff.TaskEmitter {
+	return &sharedTask{s, info.Name}
+}
+func (t *sharedTask) rec(ctx context.Context) *taskRec {
+	if l := t.s.leaf(ctx); l != nil {
+		return &taskRec{l: l, name: t.name, u: unitOfName(t.name)}
+	}
+	return nil
+}
+func (t *sharedTask) TaskSuccess(ctx context.Context) {
+	if r := t.rec(ctx); r != nil {
+		r.TaskSuccess(ctx)
+	}
+}
+func (t *sharedTask) TaskError(ctx context.Context, err error) {
+	if r := t.rec(ctx); r != nil {
+		r.TaskError(ctx, err)
+	}
+}
+func (t *sharedTask) TaskErrorRecovered(ctx context.Context, err error) {
+	if r := t.rec(ctx); r != nil {
+		r.TaskErrorRecovered(ctx, err)
+	}
+}
+func (t *sharedTask) TaskSkipped(ctx context.Context, err error) {
+	if r := t.rec(ctx); r != nil {
+		r.TaskSkipped(ctx, err)
+	}
+}
+func (t *sharedTask) TaskPanic(ctx context.Context, v interface{}) {
+	if r := t.rec(ctx); r != nil {
+		r.TaskPanic(ctx, v)
+	}
+}
+func (t *sharedTask) TaskPanicRecovered(ctx context.Context, v interface{}) {
+	if r := t.rec(ctx); r != nil {
+		r.TaskPanicRecovered(ctx, v)
+	}
+}
+func (t *sharedTask) TaskDone(ctx context.Context, d time.Duration) {
+	if r := t.rec(ctx); r != nil {
+		r.TaskDone(ctx, d)
+	}
+}
+
+func (s *sharedLeaf) SchedulerInit(*cff.SchedulerInfo) cff.SchedulerEmitter { return schedRec{} }
